@@ -1,19 +1,9 @@
 fn main() {
-    std::panic::set_hook(Box::new(|i| eprintln!("PANIC {i}")));
-    for s in [
-        "type Query { a: Int }\n{ a\u{FEFF}@include(if: $v) }",
-        "type Query { a: Int }\n{ b\u{FEFF} }",
-        "type Query { a: Int }\n{ bé }",
-        "type Query { a: Int }\n{ b \"é\" }",
-        "type Query { a: Int } { a(x: 1)\u{FEFF} }",
-        "type Query { a: Int } { b,é }",
-    ] {
-        let r = std::panic::catch_unwind(|| {
-            match apollo_compiler::parser::Parser::new().parse_mixed_validate(s, "p.graphql") {
-                Ok(_) => "ok".to_string(),
-                Err(e) => { let t = e.to_string(); format!("{} errors, rendered {} bytes", e.len(), t.len()) }
-            }
-        });
-        println!("{s:?} -> {r:?}");
+    let s = std::fs::read_to_string("/tmp/schema.graphql").unwrap();
+    let o = std::fs::read_to_string("/tmp/op.graphql").unwrap();
+    let schema = apollo_compiler::Schema::parse_and_validate(s, "s").unwrap();
+    match apollo_compiler::ExecutableDocument::parse_and_validate(&schema, o, "o") {
+        Ok(_) => println!("valid"),
+        Err(e) => { for d in e.errors.iter().take(3) { println!("{} @ {:?}", d.error, d.line_column_range()); } println!("ops: anon={} named={}", e.partial.operations.anonymous.is_some(), e.partial.operations.named.len()); }
     }
 }
